@@ -44,6 +44,7 @@ def gen(rng, tier, i):
         chaos["delay_max_us"] = 2000
     sc.net["chaos"] = chaos
     sc.net["spawn_yield"] = rng.choice([0, 300])
+    sc.net["lock_yield"] = rng.choice([0, 0, 300])   # seeded scheduling points at the asynchronous locks
     sc.cfg["timeouts"] = {"idle": 30, "udp": 30}
     inject = rng.random() < 0.12
     # origins
